@@ -1,4 +1,5 @@
 """C26 -- Event.dumps / Event.loads round-trip name and payload."""
+import copy
 import json
 import math
 
@@ -11,11 +12,16 @@ RULE = ('signal names from a generator (identifiers, long names, unicode, spaces
         'first registered by this very call) and payloads from a recursive JSON generator (None, booleans, ints incl. > 2**64, finite '
         'floats incl. -0.0 / denormals / 1e308, strings incl. escapes, non-BMP and lone surrogates, nested lists and string-keyed dicts '
         'to depth 6); loads(dumps(e)) must have the same signal_name, a payload that is type-exactly equal, and signal == the number the '
-        'registry holds for that name; hand-built JSON naming a never-seen signal must register it. distinct_nontrivial = distinct '
+        'registry holds for that name; hand-built JSON naming a never-seen signal must register it. Histories, not only single calls: '
+        'in half of the cases the decoded payload is then mutated in place (as a receiving handler might) and the SAME text is decoded '
+        'again, the original event is mutated in place and dumped again, and a look-alike payload (1/True/1.0, 0/False/0.0/-0.0 swapped '
+        'inside the same structure) is round-tripped under the same name - each result must depend on its own input only (no result '
+        'remembered from an earlier call). distinct_nontrivial = distinct '
         '(name class, payload shape signature) pairs')
 CASES = {'quick': 60000, 'thorough': 5000000}
 BUDGET = {'quick': 30, 'thorough': 300}
-REQUIRE = {'round_trips': 20000, 'new_names_via_loads': 500, 'nested_payloads': 5000}
+REQUIRE = {'round_trips': 20000, 'new_names_via_loads': 500, 'nested_payloads': 5000, 'second_decodes_after_in_place_mutation': 2000,
+           'look_alike_round_trips': 2000, 'second_dumps_after_in_place_mutation': 1000}
 ASSUME = ['payloads are JSON-representable: None, bool, finite numbers, str, list, dict with str keys']
 FRESH = [0]
 
@@ -88,11 +94,56 @@ def shape(p, d=0):
   return type(p).__name__
 
 
+def containers(p, out):
+  if isinstance(p, list):
+    out.append(p)
+    for x in p:
+      containers(x, out)
+  elif isinstance(p, dict):
+    out.append(p)
+    for x in p.values():
+      containers(x, out)
+  return out
+
+
+def mutate_in_place(p, rng):
+  """changes one container somewhere inside p (in place); False when p holds no container"""
+  cs = containers(p, [])
+  if not cs:
+    return False
+  c = rng.choice(cs)
+  if isinstance(c, list):
+    if c and rng.random() < 0.5:
+      c[rng.randrange(len(c))] = 'changed-in-place'
+    else:
+      c.append('appended-in-place')
+  else:
+    c['added-in-place'] = rng.randrange(100)
+  return True
+
+
+LOOK_ALIKE = {int: {0: [False, 0.0, -0.0], 1: [True, 1.0]}, bool: {False: [0, 0.0], True: [1, 1.0]}, float: {0.0: [0, False, -0.0], 1.0: [1, True]}}
+
+
+def look_alike(p, rng, changed):
+  """a payload that compares/hashes equal to p where Python's == cannot tell 1, True and 1.0 (0, False, 0.0, -0.0) apart"""
+  if isinstance(p, list):
+    return [look_alike(x, rng, changed) for x in p]
+  if isinstance(p, dict):
+    return {k: look_alike(v, rng, changed) for k, v in p.items()}
+  alts = LOOK_ALIKE.get(type(p), {}).get(p)
+  if alts and rng.random() < 0.8:
+    changed.append(1)
+    return rng.choice(alts)
+  return p
+
+
 def run_case(ctx, n):
   rng = ctx.rng('case', n)
   name, ncls = gen_name(rng, ctx)
   payload = gen_payload(rng)
   wit = {'signal_name': name, 'payload': repr(payload)}
+  e = None
   if rng.random() < 0.15:
     # hand-built JSON, as if received from another process
     FRESH[0] += 1
@@ -126,5 +177,38 @@ def run_case(ctx, n):
     ctx.violation('C26/payload-differs', 'round trip changed the payload %r -> %r' % (payload, e2.payload), wit)
   elif e2.signal != signals[name] or signals.name_for_signal(e2.signal) != name:
     ctx.violation('C26/number-differs', 'round-tripped event reports number %r, registry has %r for %r' % (e2.signal, signals[name], name), wit)
+  if ctx.nviol == 0 and n % 2 == 0:
+    history_leg(ctx, rng, name, payload, text, e, e2, wit)
   if n < 3:
     ctx.sample({'signal_name': name, 'payload': payload, 'json': text})
+
+
+def history_leg(ctx, rng, name, payload, text, e, e2, wit):
+  """the result of a call depends on its own input only: decoded events are fresh objects, nothing is remembered"""
+  original = copy.deepcopy(payload)
+  try:
+    # 1. mutate what the first decode returned, decode the same text again
+    if mutate_in_place(e2.payload, rng):
+      e3 = Event.loads(text)
+      ctx.count('second_decodes_after_in_place_mutation')
+      if e3.signal_name != name or not exact_equal(e3.payload, original):
+        ctx.violation('C26/second-decode-differs', 'decoding the same text again after the first decoded payload had been changed in place gave %r (signal %r); the text encodes %r' % (e3.payload, e3.signal_name, original), dict(wit, json=text))
+        return
+    # 2. mutate the original event, dump it again
+    if e is not None and mutate_in_place(e.payload, rng):
+      now = copy.deepcopy(e.payload)
+      e4 = Event.loads(Event.dumps(e))
+      ctx.count('second_dumps_after_in_place_mutation')
+      if not exact_equal(e4.payload, now):
+        ctx.violation('C26/second-dumps-differs', 'after the event payload was changed in place to %r a second round trip gave %r' % (now, e4.payload), wit)
+        return
+    # 3. a look-alike payload under the same name, right after the original
+    changed = []
+    twin = look_alike(original, rng, changed)
+    if changed:
+      e5 = Event.loads(Event.dumps(Event(signal=name, payload=twin)))
+      ctx.count('look_alike_round_trips')
+      if e5.signal_name != name or not exact_equal(e5.payload, twin):
+        ctx.violation('C26/payload-differs', 'round trip of %r (made right after the round trip of the look-alike %r under the same name) gave %r' % (twin, original, e5.payload), wit)
+  except Exception as ex:
+    ctx.violation('C26/round-trip-raises', 'repeated dumps/loads raised %s: %s' % (type(ex).__name__, ex), wit)
